@@ -22,8 +22,15 @@ pub fn build(descs: &[FnDesc], symbols: &BTreeMap<String, Value>, rules: &[(Stri
     let log = Arc::new(Log::default());
     let plan = Arc::new(plan);
     let mut b = ruleset();
-    for (name, e) in rules {
-        b = b.with_rule(Rule::new(name.clone(), BTreeMap::new(), e.clone())).expect("fixture rule names are unique");
+    // both ways of adding rules: one by one, or (for an even number of rules) the first one alone and the rest as one batch
+    if rules.len() % 2 == 0 && !rules.is_empty() {
+        let mut it = rules.iter().map(|(name, e)| Rule::new(name.clone(), BTreeMap::new(), e.clone()));
+        b = b.with_rule(it.next().unwrap()).expect("fixture rule names are unique");
+        b = b.with_rules(it.collect::<Vec<_>>()).expect("fixture rule names are unique");
+    } else {
+        for (name, e) in rules {
+            b = b.with_rule(Rule::new(name.clone(), BTreeMap::new(), e.clone())).expect("fixture rule names are unique");
+        }
     }
     for f in make_fns(descs, &log, &plan) {
         // functions named "dc…" are registered through a wrapper that keeps the trait's default cacheable()
@@ -74,7 +81,12 @@ impl Fixture {
 
     /// Model prediction for one evaluation: expected outcome per rule and expected invocations.
     pub fn predict(&self, facts: &Value) -> Prediction {
-        let mut host = ModelHost::new(&self.descs, &self.symbols, &self.plan);
+        self.predict_with(&self.descs, facts)
+    }
+
+    /// the same with other function descriptions (a function whose declared cacheability changed since the ruleset was built)
+    pub fn predict_with(&self, descs: &[FnDesc], facts: &Value) -> Prediction {
+        let mut host = ModelHost::new(descs, &self.symbols, &self.plan);
         let mut outcomes = vec![];
         let mut wide = false;
         for (name, e) in &self.rules {
